@@ -288,6 +288,8 @@ type walker struct {
 	encode    bool
 	depth     int
 	condStack []ast.Expr
+	made      map[string]Path // decode: list field -> count field it was allocated with (p.L = make([]T, p.C))
+	errFirst  bool            // decode: `if readerErr != nil { return readerErr }` has been passed at top level
 }
 
 func (w *walker) info() *types.Info { return w.frames[len(w.frames)-1].info }
@@ -477,7 +479,19 @@ func (w *walker) store(p Path, v val, rhsExpr ast.Expr, pos token.Pos) {
 	case vTail:
 		v.Op.Field = p
 	case vMake:
-		// p.List = make([]T, p.Count): allocation only (C03-ALLOC looks at it on SSA)
+		// p.List = make([]T, p.Count): allocation only (C03-ALLOC looks at it on SSA); the count is remembered so that a
+		// later `for i := range p.List` is known to run p.Count times
+		if w.made == nil {
+			w.made = map[string]Path{}
+		}
+		switch sz := v.size.(type) {
+		case vPath:
+			w.made[p.String()] = sz.P
+		case vRead:
+			if !sz.Op.Field.IsZero() {
+				w.made[p.String()] = sz.Op.Field
+			}
+		}
 	case vOpaque:
 		w.opaque(pos, "field "+p.String()+" assigned from "+v.why)
 	default:
@@ -537,6 +551,17 @@ func (w *walker) ifStmt(s *ast.IfStmt) {
 			}
 		}
 	}
+	// decode: `if err := r.Error(); err != nil { return err }` - the reader's error takes precedence; a later return of the
+	// tail parser's own error then has the meaning of lo.Ternary(r.Error() != nil, r.Error(), parseErr)
+	if !w.encode && len(w.frames) == 1 && s.Else == nil && isReaderErrNotNil(w, s.Cond) && len(s.Body.List) == 1 {
+		if rs, ok := s.Body.List[0].(*ast.ReturnStmt); ok && len(rs.Results) == 1 {
+			if v, ok := w.eval(rs.Results[0]).(vErr); ok && v.kind == "reader-error" {
+				w.seq.Returns = append(w.seq.Returns, Ret{Kind: "reader-error", Pos: rs.Pos(), OpsSoFar: len(w.seq.Ops), Detail: "reader error first"})
+				w.errFirst = true
+				return
+			}
+		}
+	}
 	// general: the branches must not touch the wire
 	save := w.ops
 	var sub []*Op
@@ -572,6 +597,9 @@ func isByteSlice(t types.Type) bool {
 
 // forStmt handles `for i := 0; i < int(p.Count); i++ { ... }`.
 func (w *walker) forStmt(s *ast.ForStmt) {
+	if w.countDownLoop(s) {
+		return
+	}
 	var idx types.Object
 	if as, ok := s.Init.(*ast.AssignStmt); ok && len(as.Lhs) == 1 && len(as.Rhs) == 1 {
 		if id, ok := as.Lhs[0].(*ast.Ident); ok {
@@ -594,12 +622,7 @@ func (w *walker) forStmt(s *ast.ForStmt) {
 		return
 	}
 	loop := &Op{Kind: LOOP, Pos: s.Pos()}
-	switch b := w.eval(be.Y).(type) {
-	case vPath:
-		loop.Count = b.P
-	case vLen:
-		loop.Over = b.Of
-	default:
+	if !w.loopBound(loop, be.Y) {
 		w.opaque(s.Pos(), "loop bound is neither a receiver field nor len of one")
 		return
 	}
@@ -611,14 +634,85 @@ func (w *walker) forStmt(s *ast.ForStmt) {
 	w.finishLoop(loop)
 }
 
+// loopBound records the iteration count of a loop: a receiver field, a local that holds the value just read into one,
+// or len of a receiver list.
+func (w *walker) loopBound(loop *Op, e ast.Expr) bool {
+	switch b := w.eval(e).(type) {
+	case vPath:
+		loop.Count = b.P
+	case vLen:
+		loop.Over = b.Of
+	case vRead:
+		if b.Op.Field.IsZero() {
+			return false
+		}
+		loop.Count = b.Op.Field
+	default:
+		return false
+	}
+	return true
+}
+
+// countDownLoop handles `for left := N; left > 0; left-- { ... }` (N iterations, the counter not used as an index).
+func (w *walker) countDownLoop(s *ast.ForStmt) bool {
+	as, ok := s.Init.(*ast.AssignStmt)
+	if !ok || len(as.Lhs) != 1 || len(as.Rhs) != 1 {
+		return false
+	}
+	id, ok := as.Lhs[0].(*ast.Ident)
+	if !ok {
+		return false
+	}
+	idx := w.info().Defs[id]
+	be, ok := s.Cond.(*ast.BinaryExpr)
+	if idx == nil || !ok || be.Op != token.GTR {
+		return false
+	}
+	if cid, ok := be.X.(*ast.Ident); !ok || w.info().Uses[cid] != idx {
+		return false
+	}
+	if tv := w.info().Types[be.Y]; tv.Value == nil || constant.Sign(tv.Value) != 0 {
+		return false
+	}
+	if dec, ok := s.Post.(*ast.IncDecStmt); !ok || dec.Tok != token.DEC {
+		return false
+	}
+	if did, ok := s.Post.(*ast.IncDecStmt).X.(*ast.Ident); !ok || w.info().Uses[did] != idx {
+		return false
+	}
+	loop := &Op{Kind: LOOP, Pos: s.Pos()}
+	if !w.loopBound(loop, as.Rhs[0]) {
+		return false
+	}
+	w.env[idx] = vOpaque{"count-down counter used as a value"}
+	save := w.ops
+	w.ops = &loop.Body
+	w.block(s.Body.List)
+	w.ops = save
+	w.finishLoop(loop)
+	return true
+}
+
 func (w *walker) rangeStmt(s *ast.RangeStmt) {
 	loop := &Op{Kind: LOOP, Pos: s.Pos()}
-	xv, ok := w.eval(s.X).(vPath)
+	rx := s.X
+	// range p.List[:n]: the first n entries of the list (n a receiver field)
+	if se, ok := rx.(*ast.SliceExpr); ok && se.Low == nil && se.High != nil && !se.Slice3 {
+		if w.loopBound(loop, se.High) && !loop.Count.IsZero() {
+			rx = se.X
+		} else {
+			loop.Count, loop.Over = Path{}, Path{}
+		}
+	}
+	xv, ok := w.eval(rx).(vPath)
 	if !ok {
 		w.opaque(s.Pos(), "range over something that is not a receiver field")
 		return
 	}
 	loop.Over = xv.P
+	if cnt, ok := w.made[xv.P.String()]; ok && !w.encode && loop.Count.IsZero() {
+		loop.Count = cnt
+	}
 	if s.Key != nil && !isBlank(s.Key) {
 		if id, ok := s.Key.(*ast.Ident); ok {
 			if obj := w.info().Defs[id]; obj != nil {
@@ -701,6 +795,9 @@ func (w *walker) returnStmt(s *ast.ReturnStmt) {
 			switch v := w.eval(s.Results[0]).(type) {
 			case vErr:
 				r.Kind, r.Detail = v.kind, v.detail
+				if v.kind == "parse-error" && w.errFirst {
+					r.Kind, r.Detail = "ternary", "reader error first, else "+v.detail
+				}
 			case vConst:
 				if tv := w.info().Types[s.Results[0]]; tv.IsNil() {
 					r.Kind = "nil"
@@ -1280,6 +1377,9 @@ func (w *walker) readerCall(e *ast.CallExpr, callee *types.Func) val {
 			op.Kind, op.Width = FIX, n
 		} else if lp, ok := w.eval(e.Args[0]).(vPath); ok {
 			op.Kind, op.LenField = VAR, lp.P
+		} else if rd, ok := w.eval(e.Args[0]).(vRead); ok && !rd.Op.Field.IsZero() {
+			// n := r.ReadUint8(); p.Len = n; r.ReadNBytes(int(n)): the local is the value of field p.Len
+			op.Kind, op.LenField = VAR, rd.Op.Field
 		} else {
 			return vOpaque{name + " length is neither constant nor a receiver field"}
 		}
